@@ -41,9 +41,10 @@ def combos(tier, filters, boundaries):
     return out
 
 
-def check_signal(sig, fs, f_range, cmbs, tag):
+def check_signal(sig, fs, f_range, cmbs, tag, dtype=None):
     from bycycle.cyclepoints import find_extrema
-    sig = np.asarray(sig, float)
+    raw = np.asarray(sig, float) if dtype is None else np.asarray(sig, dtype)
+    sig = np.asarray(raw, float)
     outs = []
     nt = False
     nev = 0
@@ -63,7 +64,7 @@ def check_signal(sig, fs, f_range, cmbs, tag):
         nev += 1
         sgn = {'kind': 'extrema', 'pad': pad, 'n_seconds': 'n_seconds' in (fk or {})}
         try:
-            p, t = find_extrema(sig.copy(), fs, f_range, boundary=b, first_extrema=fe,
+            p, t = find_extrema(raw.copy(), fs, f_range, boundary=b, first_extrema=fe,
                                 filter_kwargs=None if fk is None else dict(fk), pad=pad)
             p, t = [int(v) for v in p], [int(v) for v in t]
         except Exception as e:      # noqa
@@ -107,6 +108,18 @@ class _Tiny2:
 
     def __call__(self, case):
         return check_signal(case, 16, (2, 6), self.cmbs, ('t2',) + tuple(case))
+
+
+INT_DTYPES = {'int8': (-128, 0, 127), 'int16': (-32768, 0, 32767), 'uint8': (0, 128, 255)}
+
+
+def eval_intdtype(case):
+    """Integer-typed recordings whose samples sit on the limits of their type (a clipped ADC trace): the extremes of the raw signal are
+    the type's own minimum / maximum, which negation, abs or a difference would wrap around."""
+    dt, vals = case[0], case[1:]
+    lv = INT_DTYPES[dt]
+    cmbs = [(fk, True, b, None) for fk in TINY_FILTERS for b in (0, 1)]
+    return check_signal([lv[v] for v in vals], 8, (1, 3), cmbs, ('int', dt) + tuple(vals), dtype=dt)
 
 
 class _Words:
@@ -158,6 +171,8 @@ def spaces(tier, seed):
                              describe='6 filter-sensitive noisy signals x crop at start (0..11) and end x 3 bands x 5 filter lengths x first_extrema'))
         out.append(ProductSpace('short{-2,0,2}^9', [[-2, 0, 2]] * 9, eval_short,
                                 describe='every signal in {-2,0,2}^9 with a 17-tap filter (shorter than the filter, padded)'))
+        out.append(ProductSpace('int-dtype-limits^8', [list(INT_DTYPES)] + [[0, 1, 2]] * 8, eval_intdtype,
+                                describe='every 8-sample signal over {type minimum, middle, type maximum} in int8 / int16 / uint8, tiny filter, pad=True'))
         t2 = _Tiny2(tier)
         out.append(ProductSpace('tiny2{-1,0,1}^9', [[-1, 0, 1]] * 9, t2, bounds={'combos': len(t2.cmbs)},
                                 describe='every signal in {-1,0,1}^9, fs=16, band (2,6), pad=True, 9-tap filter given in cycles / in seconds'))
